@@ -766,8 +766,12 @@ VS = "vocoder::Vocoder::synthesize"
 MC2B = "vocoder::cepstrum::CepstrumT::mc2b"
 
 
+def _is_stage_field(e, name, variant="Zero"):
+    return e[0] == "field" and e[2] == name and e[1][0] == "variant" and e[1][2] == variant and show(e[1][1]) == "self.stage"
+
+
 def _is_zero_field(e, name):
-    return e[0] == "field" and e[2] == name and e[1][0] == "variant" and e[1][2] == "Zero" and show(e[1][1]) == "self.stage"
+    return _is_stage_field(e, name, "Zero")
 
 
 def _is_frame_coef(e):
@@ -779,9 +783,20 @@ def _is_frame_coef(e):
 
 
 def r5_wiring(ctx, p):
-    from ..expr import resolve_upvars
     RULE = "C06-R5"
     ctx.rule(RULE, "stage zero of Vocoder::synthesize: b = mc2b(MelCepstrum::new(spectrum, self.alpha)) (first frame: directly; later: the interpolation target); per sample x = excitation * exp(b[0]) (the product may be skipped only for x == 0), then filter.df(x, self.alpha, b), then b[i] += (b_next[i] - b[i]_frame_start)/fperiod for every i; afterwards b = b_next.  mc2b: b[last] = c[last], b[i] = c[i] - alpha*b[i+1] for i = last-1 down to 0, only for alpha != 0, and a copy of c otherwise")
+    if stage_wiring(ctx, p, RULE, "Zero", ML + "df", _is_frame_coef, True) is None:
+        return
+    _r5_mc2b(ctx, p, RULE)
+
+
+def stage_wiring(ctx, p, RULE, variant, df_path, is_frame_coef, gain_exp):
+    """the per-frame wiring of one filter family in Vocoder::synthesize (shared by C06-R5 and C13-R7):
+    the single df call and its arguments, the gain applied to the excitation (exp(b0) for stage
+    zero, b0 itself for the generalised family), linear interpolation of the coefficients, first-
+    frame and end-of-frame values.  Returns the synthesize body, or None when an anchor is missing."""
+    from ..expr import resolve_upvars
+    _fld = lambda e, name: _is_stage_field(e, name, variant)
     vs = cm.body_or_fail(ctx, p, RULE, VS)
     if vs is None:
         return
@@ -791,7 +806,7 @@ def r5_wiring(ctx, p):
         eb = ExprBuilder(b)
         for bb, t in b.calls():
             c = t["callee"]
-            if c["k"] == "fndef" and cm.callee_name(c) == ML + "df":
+            if c["k"] == "fndef" and cm.callee_name(c) == df_path:
                 if site is not None:
                     ctx.fail(RULE, VS, "filter call", "the MLSA filter is applied at more than one site", cm.loc_of(t["span"]))
                     return
@@ -803,7 +818,7 @@ def r5_wiring(ctx, p):
     res = (lambda e: resolve_upvars(p, b, e)) if b.kind == "Closure" else (lambda e: e)
     args = [res(eb.at(cbb).op(a)) for a in ct["args"]]
     loc = cm.loc_of(ct["span"])
-    good = len(args) == 4 and _is_zero_field(args[0], "filter") and show(args[2]) == "self.alpha" and _is_zero_field(args[3], "coefficients")
+    good = len(args) == 4 and _fld(args[0], "filter") and show(args[2]) == "self.alpha" and _fld(args[3], "coefficients")
     if good:
         ctx.ok(RULE, "filter.df(x, self.alpha, coefficients) on the stage-zero filter and coefficients", loc)
     else:
@@ -853,7 +868,7 @@ def r5_wiring(ctx, p):
             if (d, e) in exc:
                 continue
             fs = [e[2], e[3]] if e[0] == "bin" and e[1] == "Mul" else []
-            ex = [f for f in fs if f[0] == "call" and f[1] == "f64::exp" and f[2][0][0] == "idx" and _is_zero_field(f[2][0][1], "coefficients") and f[2][0][2][0] == "c" and f[2][0][2][1] == 0]
+            ex = [f for f in fs if f[0] == "call" and f[1] == "f64::exp" and f[2][0][0] == "idx" and _fld(f[2][0][1], "coefficients") and f[2][0][2][0] == "c" and f[2][0][2][1] == 0] if gain_exp else [f for f in fs if f[0] == "idx" and _fld(f[1], "coefficients") and f[2][0] == "c" and f[2][1] == 0]
             src = [f for f in fs if exc and f == exc[0][1]]
             if len(ex) == 1 and len(src) == 1:
                 gained.append((d, e))
@@ -886,9 +901,11 @@ def r5_wiring(ctx, p):
     inter = None
     for sbb, i, st, tgt, root, chain, val in stores(b, eb):
         t_, v_ = res(tgt), res(val)
-        if t_[0] == "idx" and _is_zero_field(t_[1], "coefficients"):
+        if t_[0] == "idx" and _fld(t_[1], "coefficients"):
+            if not (_dom(b, cbb, sbb) and cbb != sbb):
+                continue        # before the filter call: not the per-sample interpolation
             if inter is not None:
-                ctx.fail(RULE, b.path, "interpolation", "the stage-zero coefficients are stored element-wise at two places", cm.loc_of(st["span"]))
+                ctx.fail(RULE, b.path, "interpolation", "the coefficients are stored element-wise at two places after the filter call", cm.loc_of(st["span"]))
                 return
             inter = (sbb, t_, v_, cm.loc_of(st["span"]))
     cinc = None
@@ -934,8 +951,8 @@ def r5_wiring(ctx, p):
                         return None
                     pol = to_poly(rv, at)
                     Z0, Z1, FP = Poly.atom(("Z", 0)), Poly.atom(("Z", 1)), Poly.atom(("FP",))
-                    fwd = _is_frame_coef(za) and _is_zero_field(zb, "coefficients")
-                    bwd = _is_frame_coef(zb) and _is_zero_field(za, "coefficients")
+                    fwd = is_frame_coef(za) and _fld(zb, "coefficients")
+                    bwd = is_frame_coef(zb) and _fld(za, "coefficients")
                     if fwd and pol == (Z0 - Z1) * FP.inverse():
                         okc = True
                     elif bwd and pol == (Z1 - Z0) * FP.inverse():
@@ -951,16 +968,16 @@ def r5_wiring(ctx, p):
     veb = ExprBuilder(vs)
     whole = []
     for sbb, i, st, tgt, root, chain, val in stores(vs, veb):
-        if _is_zero_field(tgt, "coefficients"):
+        if _fld(tgt, "coefficients"):
             whole.append((sbb, val, cm.loc_of(st["span"]), [g for g in paths.guards(vs, sbb, veb)]))
     firsts = [w for w in whole if any(g[0] in ("true", "false") and show(paths.bool_atoms(g)[1]) == "self.is_first" and paths.bool_atoms(g)[0] for g in w[3])]
     lasts = [w for w in whole if w not in firsts]
-    if len(firsts) == 1 and _is_frame_coef(firsts[0][1]):
+    if len(firsts) == 1 and is_frame_coef(firsts[0][1]):
         ctx.ok(RULE, "first frame: coefficients = mc2b(MelCepstrum::new(spectrum, self.alpha))", firsts[0][2])
     else:
         ctx.fail(RULE, VS, "first frame", "the first frame does not start from mc2b(MelCepstrum::new(spectrum, self.alpha)) (%s)" % [show(w[1])[:80] for w in firsts], vs.loc())
     okl = False
-    if len(lasts) == 1 and _is_frame_coef(lasts[0][1]):
+    if len(lasts) == 1 and is_frame_coef(lasts[0][1]):
         # after the sample loop
         if b is vs:
             # plain loop: the store sits behind the exit edge of the sample loop the call is in
@@ -974,6 +991,10 @@ def r5_wiring(ctx, p):
         ctx.ok(RULE, "end of frame: coefficients = b_next", lasts[0][2])
     else:
         ctx.fail(RULE, VS, "end of frame", "after the sample loop the coefficients are not set to the frame's own mc2b(..) (%s)" % [show(w[1])[:80] for w in lasts], vs.loc())
+    return vs
+
+
+def _r5_mc2b(ctx, p, RULE):
     # mc2b
     m = cm.body_or_fail(ctx, p, RULE, MC2B)
     if m is None:
